@@ -57,6 +57,7 @@ inductive Err where
   | unicodeDecodeError   -- UnicodeDecodeError(UnicodeError(ValueError))
   | structError          -- struct.error(Exception): caught inside verify_password
   | invalidKey           -- cryptography.exceptions.InvalidKey(Exception): caught inside verify_password
+  | indexError           -- IndexError(LookupError): only raised by the code *before* fix C19-1
   deriving DecidableEq, Repr
 
 /-- subclass relation `issubclass(e, base)` restricted to the classes above -/
@@ -298,6 +299,51 @@ def verifyPassword (kdf : Kdf) (sha : Bytes → Bytes) (password passwordHash : 
   | .error e => .error e
   | .ok q =>
     -- try: kdf.verify(...); result = True   except InvalidKey: pass
+    match scryptVerify kdf q with
+    | .ok () => .ok true
+    | .error .invalidKey => .ok false
+    | .error e => .error e
+
+/-! ## the code before the repairs (used only by the witness theorems `C19_unrepaired_*`)
+
+`parts[0] … parts[3]` indexed without a length check (surplus fields ignored, missing ones raise
+`IndexError`), no check of the digest length. -/
+
+def verifyPrepareUnrepaired (sha : Bytes → Bytes) (password passwordHash : PyArg) : Except Err Query :=
+  match password with
+  | .bytes pw =>
+    match passwordHash with
+    | .str hs =>
+      let km := sha pw
+      match encodeUtf8 hs with
+      | .error e => .error e
+      | .ok enc =>
+        match splitOn colon enc with
+        | kind :: version :: f2 :: f3 :: _ =>
+          match b64decode f2 with
+          | .error e => .error e
+          | .ok params =>
+            match b64decode f3 with
+            | .error e => .error e
+            | .ok data =>
+              if kind ≠ kScrypt ∨ version ≠ kOne then .error .valueError
+              else
+                match unpackParams params with
+                | .error .structError => .error .valueError
+                | .error e => .error e
+                | .ok P =>
+                  match scryptInit P.N P.r P.p with
+                  | .error e => .error e
+                  | .ok () => .ok ⟨P.N, P.r, P.p, P.len, data.take P.saltLen, km, data.drop P.saltLen⟩
+        | _ => .error .indexError
+    | _ => .error .typeError
+  | _ => .error .typeError
+
+def verifyPasswordUnrepaired (kdf : Kdf) (sha : Bytes → Bytes) (password passwordHash : PyArg) :
+    Except Err Bool :=
+  match verifyPrepareUnrepaired sha password passwordHash with
+  | .error e => .error e
+  | .ok q =>
     match scryptVerify kdf q with
     | .ok () => .ok true
     | .error .invalidKey => .ok false
